@@ -95,8 +95,19 @@ impl TrainDisp {
                     {
                         break;
                     }
+                    // The fake node is passed like any other node: without a pass time here, the
+                    // next advance would start from an infinite time
+                    let est_time_free = &self.est_times[disp_node_free.est_idx.idx()];
+                    let (idx_next_free, time_to_next_free) =
+                        (est_time_free.idx_next, est_time_free.time_to_next);
+                    self.disp_path[self.disp_node_idx_free.idx()].time_pass = self.time_update_next;
                     self.disp_node_idx_free =
                         (self.disp_node_idx_free.idx() + 1).try_from_idx().unwrap();
+                    if self.disp_node_idx_free.idx() < self.disp_path.len()
+                        && idx_next_free == self.disp_path[self.disp_node_idx_free.idx()].est_idx
+                    {
+                        self.time_update_next += time_to_next_free;
+                    }
                 }
                 break;
             }
